@@ -60,7 +60,6 @@ def quiescent_check(world, op=None):
     if kinds['index'] > limit:
         world.problem('census:index-fds-accumulate',
                       f'after {op and op["op"]}: {kinds["index"]} index descriptors for {len(world.handles)} handle(s)')
-    world.counters['census-max-index-fds'] = max(world.counters['census-max-index-fds'], kinds['index'])
     if kinds['src-index']:
         world.problem('census:source-left-open', 'source container of an import still has descriptors after close()')
 
